@@ -52,7 +52,13 @@ func (t scopedTri) PointInSide(p vector3.Float64) bool {
 	}
 
 	w := a.Cross(b)
-	return u.Dot(w) >= 0.
+	if u.Dot(w) < 0. {
+		return false
+	}
+
+	// A point on the extension of an edge makes one of the normals vanish, so
+	// the two tests above pass trivially; the remaining pair still disagrees.
+	return v.Dot(w) >= 0.
 }
 
 func (t scopedTri) ClosestPoint(p vector3.Float64) vector3.Float64 {
@@ -276,7 +282,13 @@ func (t Tri) PointInSide(p vector3.Float64) bool {
 	}
 
 	w := a.Cross(b)
-	return u.Dot(w) >= 0.
+	if u.Dot(w) < 0. {
+		return false
+	}
+
+	// A point on the extension of an edge makes one of the normals vanish, so
+	// the two tests above pass trivially; the remaining pair still disagrees.
+	return v.Dot(w) >= 0.
 }
 
 func (t Tri) LineIntersects(line geometry.Line3D) (vector3.Float64, bool) {
